@@ -713,6 +713,15 @@ func (db *Default) removeDevice(ctx context.Context, id agd.DeviceID) {
 	db.mapsMu.Lock()
 	defer db.mapsMu.Unlock()
 
+	// Recheck under the write lock, since the data could have been updated
+	// since the lookup that has requested the removal.
+	if profID, ok := db.deviceIDToProfileID[id]; ok {
+		p, profOK := db.profiles[profID]
+		if profOK && (p.AutoDevicesEnabled || slices.Contains(p.DeviceIDs, id)) {
+			return
+		}
+	}
+
 	delete(db.deviceIDToProfileID, id)
 }
 
@@ -723,6 +732,12 @@ func (db *Default) removeDedicatedIP(ctx context.Context, ip netip.Addr) {
 
 	db.mapsMu.Lock()
 	defer db.mapsMu.Unlock()
+
+	// Recheck under the write lock, since the data could have been updated
+	// since the lookup that has requested the removal.
+	if d, ok := db.devices[db.dedicatedIPToDeviceID[ip]]; ok && slices.Contains(d.DedicatedIPs, ip) {
+		return
+	}
 
 	delete(db.dedicatedIPToDeviceID, ip)
 }
@@ -791,6 +806,12 @@ func (db *Default) removeHumanID(ctx context.Context, k humanIDKey) {
 	db.mapsMu.Lock()
 	defer db.mapsMu.Unlock()
 
+	// Recheck under the write lock, since the data could have been updated
+	// since the lookup that has requested the removal.
+	if d, ok := db.devices[db.humanIDToDeviceID[k]]; ok && d.HumanIDLower == k.lower {
+		return
+	}
+
 	delete(db.humanIDToDeviceID, k)
 }
 
@@ -855,6 +876,12 @@ func (db *Default) removeLinkedIP(ctx context.Context, ip netip.Addr) {
 
 	db.mapsMu.Lock()
 	defer db.mapsMu.Unlock()
+
+	// Recheck under the write lock, since the data could have been updated
+	// since the lookup that has requested the removal.
+	if d, ok := db.devices[db.linkedIPToDeviceID[ip]]; ok && d.LinkedIP == ip {
+		return
+	}
 
 	delete(db.linkedIPToDeviceID, ip)
 }
